@@ -124,6 +124,13 @@ function genOpExpr (rng, ctx, d, label, nested) {
   }
   const id = P.nextOp++
   // an optional chain may yield undefined: only as a stand-alone operation, never as an operand
+  // now and then an operation with many operands (temporaries counted in two digits)
+  if (!nested && P.nextSite < 120 && rng.chance(1, 40)) {
+    const n = rng.pick([9, 10, 11, 12, 16, 17, 33])
+    const args = []
+    for (let i = 0; i < n; i++) args.push({ t: 'probe', site: P.nextSite++ })
+    return rng.chance(1, 2) ? { t: 'call', id, label, m: 'concat', recv: { t: 'probe', site: P.nextSite++ }, args, recvShape: 'plain', form: 'method' } : { t: 'tpl', id, label, ops: args }
+  }
   const pickOp = rng.below(nested ? 8 : 10)
   if (pickOp === 7) {
     // a configured method that may be called without a callee: aloneMethod(arg, arg, ...)
